@@ -1000,7 +1000,7 @@ class Gen:
         return self.files
 
 
-EXTENDED_MUTATORS = ("extension_declaration",)
+EXTENDED_MUTATORS = ("extension_declaration", "reserved_dup", "max_range")
 
 
 def json_name(s):
@@ -1753,6 +1753,102 @@ class Mutator:
             m[3]["body"].append({"k": "extensions", "ranges": [{"s": 4, "e": None, "max": True}]})
         return True
 
+    # ---- extended only (EXTENDED_MUTATORS): the basic set and its random stream are left as they are
+    def m_reserved_dup(self, files):
+        """a reserved name (in the spelling of the syntax) or a reserved number met a second time in the same message
+        or enum: within one statement, across statements, appended to an existing statement - or only a look-alike"""
+        r = self.rng
+        s = self.pick(msg_sites(files) + all_sites(files, ("enum",)))
+        if not s:
+            return None
+        ed = syntax_of(files, s[0]) == "editions"
+        lst = s[3]["body"] if s[3]["k"] == "message" else s[3]["elems"]
+
+        def stmt(names):
+            h = [n.encode().hex() for n in names]
+            return {"k": "reserved_names", "names": [] if ed else h, "idents": h if ed else []}
+
+        def put(e):
+            lst.insert(r.below(len(lst) + 1), e)
+        old = [e for e in lst if e["k"] == "reserved_names" and (e["idents"] if ed else e["names"])]
+        have = [bytes.fromhex(n).decode("latin-1") for e in old for n in (e["idents"] if ed else e["names"])]
+        base = self.pick(have) if have and r.chance(1, 2) else "zq_rsv"
+        k = r.below(6)
+        if k == 0:
+            put(stmt(r.choice([[base, base], [base, "zq_other", base], ["zq_other", base, base]])))
+        elif k == 1:
+            put(stmt([base]))
+            put(stmt(r.choice([[base], ["zq_other", base], [base, "zq_other"]])))
+        elif k == 2 and old:
+            e = self.pick(old)
+            (e["idents"] if ed else e["names"]).insert(r.below(2), base.encode().hex())
+            if base not in have:
+                put(stmt([base]))
+        elif k == 3:
+            put(stmt([base, base + "_"]))
+            put(stmt([base.swapcase(), "_" + base]))
+        else:
+            n = r.choice([7000, 7001, 90000])
+            put({"k": "reserved", "ranges": [r.choice([{"s": n, "e": None, "max": False}, {"s": n - 2, "e": n, "max": False}])]})
+            put({"k": "reserved", "ranges": r.shuffle([{"s": 6990, "e": None, "max": False},
+                                                       r.choice([{"s": n, "e": None, "max": False}, {"s": n, "e": n + 3, "max": False},
+                                                                 {"s": n + 1, "e": n + 3, "max": False}, {"s": n - 1, "e": None, "max": True}])])})
+        return True
+
+    def m_max_range(self, files):
+        """a range that ends in max, or on the largest number / one beyond it, in an ordinary message, a message turned
+        into a message set (fields dropped, an extension range added), or an enum"""
+        r = self.rng
+        if r.chance(1, 4):
+            s = self.an_enum(files)
+            if not s:
+                return None
+            vals = [int(x["num"]) for x in s[3]["elems"] if x["k"] == "value"]
+            tops = [int(x["s"]) if x["max"] else int(rng_end(x)) for e in s[3]["elems"] if e["k"] == "reserved" for x in e["ranges"]]
+            lo = max(vals + tops + [0]) + 1
+            if lo >= INT32_MAX - 10:
+                return None
+            a = r.choice([lo, lo + 5, INT32_MAX - 1, INT32_MAX])
+            rg = r.choice([{"s": a, "e": None, "max": True}, {"s": a, "e": INT32_MAX, "max": False},
+                           {"s": a, "e": INT32_MAX - 1, "max": False}, {"s": a, "e": INT32_MAX + 1, "max": False}])
+            s[3]["elems"].insert(r.below(len(s[3]["elems"]) + 1), {"k": "reserved", "ranges": [rg]})
+            return True
+        ms = [m for m in msg_sites(files)]
+        m = self.pick(ms)
+        if not m:
+            return None
+        body = m[3]["body"]
+        p3 = syntax_of(files, m[0]) == "proto3"
+        has_ext = any(e["k"] == "extensions" for e in body)
+        lim = FIELD_MAX
+        if not p3 and not has_ext and r.chance(1, 2):
+            body[:] = [e for e in body if e["k"] not in ("field", "map", "group", "oneof", "option")]
+            body.insert(r.below(len(body) + 1), {"k": "option", "name": "message_set_wire_format", "val": {"t": "ident", "v": "true"}})
+            body.insert(r.below(len(body) + 1), {"k": "extensions", "ranges": [{"s": 4, "e": 9, "max": False}]})
+            lim = MSGSET_MAX
+        nums = [int(e["num"]) for e in body if e["k"] in ("field", "map", "group")]
+        nums += [int(x["num"]) for e in body if e["k"] == "oneof" for x in e["elems"]]
+        for e in body:
+            if e["k"] in ("reserved", "extensions"):
+                for x in e["ranges"]:
+                    if x["max"]:
+                        return None       # the message already has a range that ends in max
+                    nums.append(int(rng_end(x)))
+        lo = max(nums + [19999]) + 1
+        if lo >= FIELD_MAX - 10:
+            return None
+        a = r.choice([lo, lo + 1000, FIELD_MAX, FIELD_MAX + 1, lim])
+        rg = r.choice([{"s": a, "e": None, "max": True}, {"s": a, "e": None, "max": True}, {"s": a, "e": lim, "max": False},
+                       {"s": a, "e": lim - 1, "max": False}, {"s": a, "e": lim + 1, "max": False}, {"s": a, "e": FIELD_MAX + 1, "max": False}])
+        kind = "reserved" if (p3 or r.chance(2, 3)) else "extensions"
+        same = [e for e in body if e["k"] == kind and not e.get("adj") and "xopts" not in e]
+        if same and r.chance(1, 2):
+            e = self.pick(same)
+            e["ranges"].insert(r.below(len(e["ranges"]) + 1), rg)
+        else:
+            body.insert(r.below(len(body) + 1), {"k": kind, "ranges": [rg]})
+        return True
+
     def m_import(self, files):
         k = self.rng.below(2)
         cands = [fi for fi, f in enumerate(files) if f["imports"]]
@@ -2114,6 +2210,213 @@ def shape_sets(ids):
     return out
 
 
+# ---------------------------------------------------------------- duplicate / overlap rules and the meaning of `max`, enumerated
+MSGSET_MAX = 2**31 - 2
+INT32_MAX = 2**31 - 1
+INT32_MIN = -2**31
+
+
+def dup_sets():
+    """[(label, {path: text})]: every duplicate / overlap rule of a message or enum, one rule per file set, in all three
+    syntaxes - so in BOTH spellings of reserved names (string literals in proto2 / proto3, identifiers in editions):
+
+      * a name reserved twice: within one statement (adjacent, apart, three times), across statements (adjacent, with other
+        declarations between, as first / last name of the later statement, after several statements), and the accepted
+        look-alikes (distinct names, names differing in case or by a suffix, the same name in a nested message / nested
+        enum / sibling message: the rule is per message)
+      * the wrong spelling for the syntax, alone and together with a duplicate
+      * a field / oneof member / map field / group field (enum: value) whose name is reserved, declared before or after the
+        reserved statement, reserved in the first or a later statement; accepted look-alikes (case differs, nested
+        message's field, extension declared inside the message, group type name)
+      * reserved ranges that share a number within one statement and across statements (also with max), adjacent ones
+        (accepted), the same single number twice; extension ranges likewise and against reserved ranges
+      * a field number (enum: value) on the first / last number of a reserved or extension range, one before, one after,
+        also when the range ends in max"""
+    out = []
+    for syn, tag in ((P2, "p2"), (P3, "p3"), (ED, "ed")):
+        ed = syn == ED
+        lbl = "optional " if syn == P2 else ""
+
+        def q(n, other=False):
+            return n if (ed != other) else '"%s"' % n
+
+        def rs(*names, **kw):
+            return "reserved " + ", ".join(q(n, kw.get("other", False)) for n in names) + ";"
+
+        def msg(body):
+            return syn + "package dp; message M { %s }\n" % body
+
+        def enum(body):
+            return syn + "package dp; enum E { E_ZERO = 0; %s }\n" % body
+
+        def add(label, text):
+            out.append(("dup-%s:%s" % (tag, label), {"t.proto": text}))
+        F = lbl + "int32 keep = 1;"
+        V = "E_KEEP = 1;"
+        for cont, wrap, X in (("msg", msg, F), ("enum", enum, V)):
+            a, b, c = ("foo", "bar", "baz") if cont == "msg" else ("E_FOO", "E_BAR", "E_BAZ")
+            for label, body in [
+                    ("same-stmt", rs(a, a)), ("same-stmt-apart", rs(a, b, a)), ("same-stmt-last-two", rs(b, a, a)),
+                    ("same-stmt-thrice", rs(a, a, a)), ("two-stmts", rs(a) + " " + rs(a)),
+                    ("two-stmts-apart-last", rs(a) + " " + X + " " + rs(b, a)), ("two-stmts-apart-first", rs(b, a) + " " + X + " " + rs(a, c)),
+                    ("two-stmts-before-decl", rs(a) + " " + rs(b, a, c) + " " + X),
+                    ("four-stmts", rs(a) + " " + rs(b) + " " + X + " " + rs(c) + " " + rs(a)),
+                    ("two-pairs", rs(a, b) + " " + rs(b, a)),
+                    ("ok-distinct", rs(a, b) + " " + X + " " + rs(c)), ("ok-case", rs(a) + " " + rs(a.swapcase())),
+                    ("ok-suffix", rs(a, a + "_") + " " + rs(a + a, "_" + a)),
+                    ("wrong-form", rs(a, other=True)), ("wrong-form-dup", rs(a, a, other=True)),
+                    ("wrong-form-then-dup", rs(a, other=True) + " " + rs(b) + " " + rs(b)),
+                    ("both-forms-dup", rs(a) + " " + rs(a, other=True))]:
+                add("%s-name-%s" % (cont, label), wrap(body))
+        # the rule is per message / per enum
+        add("msg-name-ok-nested", msg(rs("foo") + " message N { " + rs("foo") + " } enum E { E_ZERO = 0; " + rs("foo") + " } " + F))
+        add("msg-name-ok-sibling", syn + "message M { %s } message N { %s } enum E { E_ZERO = 0; %s } enum G { G_ZERO = 0; %s }\n"
+            % (rs("foo"), rs("foo"), rs("foo"), rs("foo")))
+        add("msg-name-nested-dup", msg(rs("foo") + " message N { " + rs("foo", "bar") + " " + rs("foo") + " }"))
+        add("msg-name-nested-enum-dup", msg(rs("foo") + " enum E { E_ZERO = 0; " + rs("foo") + " " + rs("bar", "foo") + " }"))
+        # names in use
+        fld = lambda n, k=2: lbl + "int32 %s = %d;" % (n, k)
+        for label, body in [
+                ("field-after", rs("foo") + " " + fld("foo")), ("field-before", fld("foo") + " " + rs("foo")),
+                ("field-second-stmt", rs("bar") + " " + fld("foo") + " " + rs("baz", "foo")),
+                ("field-second-name", rs("bar", "foo") + " " + fld("foo")),
+                ("oneof-member", rs("foo") + " oneof o { int32 foo = 2; string other = 3; }"),
+                ("map-field", rs("foo") + " map<string, int32> foo = 2;"),
+                ("ok-field-case", rs("foo") + " " + fld("Foo")), ("ok-field-suffix", rs("foo") + " " + fld("foo_") + " " + fld("fo", 3)),
+                ("ok-nested-field", rs("foo") + " message N { " + fld("foo") + " }"),
+                ("ok-oneof-name", rs("foo") + " oneof foo { int32 member = 2; }"),
+                ("ok-nested-type-name", rs("Foo") + " message Foo { } " + fld("foo"))]:
+            add("msg-used-" + label, msg(body))
+        if syn != P3:
+            add("msg-used-ok-extension", msg(rs("foo") + " extensions 100 to 199; extend M { " + fld("foo", 100) + " }"))
+        if syn == P2:
+            add("msg-used-group-field", msg(rs("grp") + " optional group Grp = 2 { }"))
+            add("msg-used-ok-group-type", msg(rs("Grp") + " optional group Grp = 2 { }"))
+            add("msg-used-oneof-group", msg(rs("bar", "grp") + " oneof o { group Grp = 2 { } int32 k = 3; }"))
+        for label, body in [
+                ("value-after", rs("E_FOO") + " E_FOO = 1;"), ("value-before", "E_FOO = 1; " + rs("E_FOO")),
+                ("value-second-stmt", rs("E_BAR") + " E_FOO = 1; " + rs("E_BAZ", "E_FOO")),
+                ("first-value", rs("E_BAR", "E_ZERO")), ("ok-value-case", rs("E_FOO") + " e_foo = 1;"),
+                ("ok-other-enum", rs("E_FOO") + " } enum G { E_FOO = 0;")]:
+            add("enum-used-" + label, enum(body))
+        # numeric ranges of a message
+        kinds = [("reserved", "rsv")] + ([("extensions", "ext")] if syn != P3 else [])
+        for kw, kt in kinds:
+            for label, body in [
+                    ("touch-same-stmt", "%s 1 to 5, 5 to 9;" % kw), ("adjacent-same-stmt", "%s 1 to 5, 6 to 9;" % kw),
+                    ("touch-unsorted", "%s 20, 5 to 9, 1 to 5;" % kw), ("touch-two-stmts", "%s 1 to 5; %s %s 5;" % (kw, F.replace("= 1;", "= 99;"), kw)),
+                    ("adjacent-two-stmts", "%s 6 to 9; %s 1 to 5;" % (kw, kw)), ("single-twice", "%s 7; %s 7;" % (kw, kw)),
+                    ("single-twice-same-stmt", "%s 7, 8, 7;" % kw), ("inside-two-stmts", "%s 1 to 100; %s 200; %s 50 to 60;" % (kw, kw, kw)),
+                    ("max-vs-last", "%s 1000 to max; %s %d;" % (kw, kw, FIELD_MAX)), ("max-vs-max", "%s 1000 to max, 2000 to max;" % kw),
+                    ("max-adjacent", "%s 1000 to max; %s 999;" % (kw, kw)),
+                    ("field-on-start", "%s 5 to 9; %s" % (kw, fld("f", 5))), ("field-on-end", "%s 5 to 9; %s" % (kw, fld("f", 9))),
+                    ("field-before", "%s 5 to 9; %s" % (kw, fld("f", 4))), ("field-after", "%s 5 to 9; %s" % (kw, fld("f", 10))),
+                    ("field-declared-first", "%s %s 5 to 9;" % (fld("f", 9), kw)),
+                    ("field-second-stmt", "%s 1 to 3; %s %s 5 to 9, 20;" % (kw, fld("f", 20), kw)),
+                    ("field-in-max", "%s 1000 to max; %s" % (kw, fld("f", FIELD_MAX))), ("field-below-max", "%s 1000 to max; %s" % (kw, fld("f", 999))),
+                    ("map-field-on-end", "%s 5 to 9; map<int32, int32> f = 9;" % kw), ("oneof-member-on-start", "%s 5 to 9; oneof o { int32 f = 5; }" % kw)]:
+                add("msg-%s-%s" % (kt, label), msg(body))
+        if syn != P3:
+            for label, body in [
+                    ("touch", "extensions 1 to 5; reserved 5 to 9;"), ("touch-rev", "reserved 1 to 5; extensions 5 to 9;"),
+                    ("adjacent", "extensions 1 to 5; reserved 6 to 9;"), ("same-single", "reserved 7; " + F.replace("= 1;", "= 99;") + " extensions 7;"),
+                    ("max-both", "extensions 1000 to max; reserved 2000 to max;"), ("max-vs-last", "reserved 1000 to max; extensions %d;" % FIELD_MAX),
+                    ("max-adjacent", "reserved 1000 to max; extensions 1 to 999;"), ("interleaved", "extensions 1 to 10, 21 to 30; reserved 11 to 20, 31;"),
+                    ("interleaved-touch", "extensions 1 to 10, 21 to 30; reserved 11 to 21;")]:
+                add("msg-ext-rsv-" + label, msg(body))
+        if syn == P2:
+            add("msg-rsv-group-on-end", msg("reserved 5 to 9; optional group Grp = 9 { }"))
+        # numeric ranges of an enum (closed)
+        for label, body in [
+                ("touch-same-stmt", "reserved 1 to 5, 5 to 9;"), ("adjacent-same-stmt", "reserved 1 to 5, 6 to 9;"),
+                ("touch-two-stmts", "reserved 1 to 5; E_KEEP = 99; reserved 5;"), ("single-twice", "reserved 7; reserved 7;"),
+                ("negative-touch", "reserved -5 to -1; reserved -1 to 3;"), ("negative-adjacent", "reserved -5 to -1; reserved -9 to -6;"),
+                ("max-vs-last", "reserved 1000 to max; reserved %d;" % INT32_MAX), ("max-vs-max", "reserved 1000 to max, 2000 to max;"),
+                ("max-adjacent", "reserved 1000 to max, 999;"), ("value-on-start", "reserved 5 to 9; E_F = 5;"), ("value-on-end", "reserved 5 to 9; E_F = 9;"),
+                ("value-before", "reserved 5 to 9; E_F = 4;"), ("value-after", "reserved 5 to 9; E_F = 10;"), ("value-declared-first", "E_F = 9; reserved 5 to 9;"),
+                ("value-second-stmt", "reserved 2 to 3; E_F = 20; reserved 5 to 9, 20;"), ("value-in-max", "reserved 1000 to max; E_F = %d;" % INT32_MAX),
+                ("value-below-max", "reserved 1000 to max; E_F = 999;"), ("zero-reserved", "reserved -1 to 0;"),
+                ("value-negative-on-start", "reserved -9 to -5; E_F = -9;")]:
+            add("enum-rsv-" + label, enum(body))
+    return out
+
+
+def max_sets():
+    """[(label, {path: text})]: what `max` (and the largest explicit number) means in every kind of range - extension ranges
+    and reserved ranges of a message, reserved ranges of an enum - in an ordinary message (2^29-1), a message with
+    message_set_wire_format = true (2^31-2; option written before or after the range, = false, in a nested message of either
+    kind inside a message of the other kind, in a group), and an enum (2^31-1, also nested in a message set).  One range
+    statement per file set where the verdict may turn on it, so that the descriptor (range ends) of every accepted one is
+    compared."""
+    out = []
+    for syn, tag in ((P2, "p2"), (ED, "ed"), (P3, "p3")):
+        def add(label, text):
+            out.append(("max-%s:%s" % (tag, label), {"t.proto": syn + "package mx;\n" + text + "\n"}))
+        modes = [("plain", "", FIELD_MAX)]
+        if syn != P3:
+            modes += [("msgset", "option message_set_wire_format = true; ", MSGSET_MAX), ("msgset-false", "option message_set_wire_format = false; ", FIELD_MAX)]
+        for mode, opt, lim in modes:
+            for kw, kt in (("reserved", "rsv"), ("extensions", "ext")):
+                if kw == "extensions" and syn == P3:
+                    continue
+                # a message set needs an extension range of its own (the Go code rejects one without; documented divergence)
+                pre = opt + ("extensions 4 to 9; " if (mode == "msgset" and kw == "reserved") else "")
+                for label, st in [
+                        ("to-max", "%s 1000 to max;" % kw), ("to-limit", "%s 1000 to %d;" % (kw, lim)), ("to-limit-plus-1", "%s 1000 to %d;" % (kw, lim + 1)),
+                        ("2-29", "%s %d;" % (kw, FIELD_MAX + 1))] if mode == "msgset-false" else [
+                        ("to-max", "%s 1000 to max;" % kw), ("to-limit", "%s 1000 to %d;" % (kw, lim)), ("to-limit-plus-1", "%s 1000 to %d;" % (kw, lim + 1)),
+                        ("to-limit-minus-1", "%s 1000 to %d;" % (kw, lim - 1)), ("limit", "%s %d;" % (kw, lim)), ("limit-plus-1", "%s %d;" % (kw, lim + 1)),
+                        ("limit-to-max", "%s %d to max;" % (kw, lim)), ("limit-to-limit", "%s %d to %d;" % (kw, lim, lim)),
+                        ("limit-plus-1-to-max", "%s %d to max;" % (kw, lim + 1)),
+                        ("across-2-29", "%s %d to %d;" % (kw, FIELD_MAX, FIELD_MAX + 2)), ("2-29", "%s %d;" % (kw, FIELD_MAX + 1)),
+                        ("to-int32-max", "%s 1000 to %d;" % (kw, INT32_MAX)), ("to-2-31", "%s 1000 to %d;" % (kw, 2**31)),
+                        ("list-max-last", "%s 20, 30 to 40, 1000 to max;" % kw), ("list-max-first", "%s 1000 to max, 30 to 40, 20;" % kw),
+                        ("two-stmts", "%s 20 to 30; %s 1000 to max;" % (kw, kw))]:
+                    add("%s-%s-%s" % (mode, kt, label), "message M { %s%s }" % (pre, st))
+                add("%s-%s-option-last" % (mode, kt), "message M { %s 1000 to max; %s%s }" % (kw, "extensions 4 to 9; " if kw == "reserved" and mode == "msgset" else "", opt))
+            if syn != P3:
+                add(mode + "-both-max-split", "message M { %sextensions 4 to 999; reserved 1000 to max; }" % opt)
+                add(mode + "-both-max-split-rev", "message M { %sreserved 4 to 999; extensions 1000 to max; }" % opt)
+                add(mode + "-both-last", "message M { %sextensions 4 to %d; reserved %d; }" % (opt, lim - 1, lim))
+                add(mode + "-both-last-overlap", "message M { %sextensions 4 to max; reserved %d; }" % (opt, lim))
+                add(mode + "-ext-at-limit", "message M { %sextensions 4 to max; } message N { } extend M { %sN n = %d; }"
+                    % (opt, "optional " if syn == P2 else "", lim))
+                add(mode + "-ext-above-limit", "message M { %sextensions 4 to max; } message N { } extend M { %sN n = %d; }"
+                    % (opt, "optional " if syn == P2 else "", lim + 1))
+        lbl = "optional " if syn == P2 else ""
+        if syn != P3:
+            MS = "option message_set_wire_format = true; extensions 4 to max; "
+            add("nested-plain-in-msgset", "message M { %smessage N { reserved 1000 to max; extensions 4 to 999; %sint32 f = 1; } }" % (MS, lbl))
+            add("nested-plain-in-msgset-ext", "message M { %smessage N { extensions 1000 to max; reserved 4 to 999; } }" % MS)
+            add("nested-plain-in-msgset-2-29", "message M { %smessage N { reserved %d; } }" % (MS, FIELD_MAX + 1))
+            add("nested-plain-in-msgset-field-2-29", "message M { %smessage N { %sint32 f = %d; } }" % (MS, lbl, FIELD_MAX + 1))
+            add("nested-msgset-in-plain", "message M { reserved 1000 to max; %sint32 f = 1; message N { %sreserved 1 to 3; } }" % (lbl, MS))
+            add("nested-msgset-in-plain-rsv", "message M { extensions 1000 to max; message N { option message_set_wire_format = true; extensions 4 to 9; reserved 1000 to max; } }")
+            add("nested-msgset-in-msgset", "message M { %smessage N { option message_set_wire_format = true; reserved 10 to max; extensions 4 to 9; } }" % MS.replace("4 to max", "4 to 9; reserved 10 to max"))
+            add("sibling-msgset-then-plain", "message M { %s} message N { reserved 1000 to max; extensions 4 to 999; }" % MS)
+            add("sibling-plain-then-msgset", "message N { reserved 1000 to max; extensions 4 to 999; } message M { option message_set_wire_format = true; extensions 4 to 9; reserved 10 to max; }")
+            add("enum-in-msgset", "message M { %senum E { E_ZERO = 0; reserved 5 to max; } }" % MS)
+        if syn == P2:
+            add("group-in-plain", "message M { optional group Grp = 1 { reserved 1000 to max; extensions 4 to 999; } }")
+            add("group-in-extend", "message M { extensions 4 to max; } "
+                "extend M { optional group Grp = 1000 { reserved 1000 to max; extensions 4 to 999; optional int32 f = 1; } }")
+            add("group-in-extend-2-29", "message M { option message_set_wire_format = true; extensions 4 to max; } "
+                "extend M { optional group Grp = %d { reserved %d; } }" % (FIELD_MAX + 1, FIELD_MAX + 1))
+            add("oneof-group-in-plain", "message M { oneof o { group Grp = 1 { extensions 1000 to max; } int32 k = 2; } }")
+        # enums
+        for label, st in [
+                ("to-max", "reserved 5 to max;"), ("negative-to-max", "E_NEG = -9; reserved -5 to max;" if syn != P3 else "reserved -5 to -1, 1 to max;"), ("min-to-max", "E_ZERO = 0; reserved %d to -1, 1 to max;" % INT32_MIN),
+                ("to-limit", "reserved 5 to %d;" % INT32_MAX), ("to-limit-plus-1", "reserved 5 to %d;" % (INT32_MAX + 1)),
+                ("to-limit-minus-1", "reserved 5 to %d;" % (INT32_MAX - 1)), ("limit", "reserved %d;" % INT32_MAX), ("limit-plus-1", "reserved %d;" % (INT32_MAX + 1)),
+                ("limit-to-max", "reserved %d to max;" % INT32_MAX), ("min", "reserved %d;" % INT32_MIN), ("min-minus-1", "reserved %d to 5;" % (INT32_MIN - 1)),
+                ("across-2-29", "reserved %d to %d;" % (FIELD_MAX, FIELD_MAX + 2)), ("msgset-limit-to-max", "reserved %d to max;" % MSGSET_MAX),
+                ("list-max-first", "reserved 1000 to max, 30 to 40, 20;"), ("two-stmts", "reserved 20 to 30; reserved 1000 to max;"),
+                ("value-at-limit", "reserved 5 to %d; E_F = %d;" % (INT32_MAX - 1, INT32_MAX))]:
+            body = st if st.startswith(("E_ZERO", "E_NEG")) else "E_ZERO = 0; " + st
+            add("enum-" + label, "enum E { %s }" % body)
+    return out
+
+
 def topo_order(asts):
     """imports before importers (stable); files importing something outside the set keep their place"""
     by = {f["name"]: f for f in asts}
@@ -2190,8 +2493,9 @@ def c02_terms(files, out):
     return "C02Case %s %s" % (fs, obs), "SpecDesc %s %s" % (fs, obs)
 
 
-def gen_cases(rng, nprog, nmut, small=False, extended=False, idshapes=False):
-    """[(label, asts)] : valid programs and single-rule mutants of them"""
+def gen_cases(rng, nprog, nmut, small=False, extended=False, idshapes=False, focus=()):
+    """[(label, asts)] : valid programs and single-rule mutants of them; focus: mutators of which one (drawn at random)
+    is applied to every program in addition (empty by default: not one extra draw from the random stream)"""
     progs = []
     for _ in range(nprog):
         g = Gen(rng, small, extended, idshapes)
@@ -2208,6 +2512,11 @@ def gen_cases(rng, nprog, nmut, small=False, extended=False, idshapes=False):
             m = mu.apply("extension_declaration", files)
             if m is not None:
                 progs.append(("extension_declaration", m))
+        if focus:
+            nm = rng.choice(list(focus))
+            m = mu.apply(nm, files)
+            if m is not None:
+                progs.append((nm, m))
     return progs
 
 
